@@ -19,18 +19,19 @@
 (* searched.  (C08): no reported depth above the limit.  (C18): every pv   *)
 (* line is playable.  (C20/C12): `show` shows the position that was set.   *)
 (***************************************************************************)
-EXTENDS Fen, Show, Json, IOUtils
+EXTENDS Fen, Zobrist, Show, Json, IOUtils
 
 Rec == ndJsonDeserialize(IOEnv.TRACE)
 
 VARIABLES l,
+          rootrec,     \* expected move-record token sets of the moves given in the last position command
           pending,     \* accepted go commands not yet answered by a bestmove
           root,        \* the position last set successfully (NoPos = unknown / none)
           sroot,       \* the position the running / last search was started from
           go,          \* the last accepted go: [t, params, infotime (or -1), stopped]
           waiting      \* C19 monitor: [acc: info lines of the running search, memo: first result per (position, depth)
                        \* of a search started from a fresh engine or right after ucinewgame, fresh: no go since the reset]
-vars == <<l, pending, root, sroot, go, waiting>>
+vars == <<l, rootrec, pending, root, sroot, go, waiting>>
 
 ToSet(q) == { q[i] : i \in DOMAIN q }
 F(ok, prop, what, detail) == IF ok THEN {} ELSE { [p |-> prop, w |-> what, d |-> detail] }
@@ -55,6 +56,14 @@ Playable(p, ts) ==
        ELSE LET m == CHOOSE m \in c : TRUE IN
             ~InCheck(ApplyBoard(p.board, p.stm, m), p.stm) /\ Playable(Apply(p, m), Tail(ts))
 
+\* the move-record tokens Show.tla prescribes for the moves ts played from p
+RECURSIVE RecSeq(_, _)
+RecSeq(p, ts) ==
+  IF ts = << >> THEN << >>
+  ELSE LET c == { m \in Pseudo(p) : Uci(m) = Head(ts) } IN
+       IF c = {} THEN << >>
+       ELSE LET m == CHOOSE m \in c : TRUE IN << RecTokens(p, m) >> \o RecSeq(Apply(p, m), Tail(ts))
+
 Has(r, k) == k \in DOMAIN r
 
 \* TimeBudget: the time remaining for the side to move under this go
@@ -63,12 +72,12 @@ Remaining(params, side) ==
   ELSE IF side = White THEN params.wtime ELSE params.btime
 Timed(params) == Has(params, "movetime") \/ (Has(params, "wtime") /\ Has(params, "btime") /\ Has(params, "winc") /\ Has(params, "binc"))
 
-Init == l = 1 /\ pending = 0 /\ root = NoPos /\ sroot = NoPos /\ go = NoGo /\ waiting = [acc |-> NoAcc, memo |-> {}, fresh |-> TRUE]
+Init == l = 1 /\ rootrec = << >> /\ pending = 0 /\ root = NoPos /\ sroot = NoPos /\ go = NoGo /\ waiting = [acc |-> NoAcc, memo |-> {}, fresh |-> TRUE]
 
 IsEv(name) == l <= Len(Rec) /\ Rec[l].ev = name
 
 Session == /\ IsEv("session")
-           /\ pending' = 0 /\ root' = NoPos /\ sroot' = NoPos /\ go' = NoGo
+           /\ pending' = 0 /\ root' = NoPos /\ sroot' = NoPos /\ go' = NoGo /\ rootrec' = << >>
            /\ waiting' = [waiting EXCEPT !.acc = NoAcc, !.fresh = TRUE] /\ l' = l + 1
 
 Cmd ==
@@ -88,6 +97,10 @@ Cmd ==
                        ELSE IF Has(e, "fen") /\ (e.fen = <<"startpos">> \/ SyntaxClass(e.fen) = "A")
                             THEN ApplyTexts(IF e.fen = <<"startpos">> THEN StartPos ELSE Parse(e.fen), e.pre)
                             ELSE NoPos
+            /\ rootrec' = IF e.refused THEN rootrec
+                          ELSE IF e.error = "" /\ Has(e, "fen") /\ (e.fen = <<"startpos">> \/ SyntaxClass(e.fen) = "A")
+                               THEN RecSeq(IF e.fen = <<"startpos">> THEN StartPos ELSE Parse(e.fen), e.pre)
+                               ELSE << >>
             /\ UNCHANGED <<pending, sroot, go, waiting>>
        [] e.kind = "go" ->
             LET accepted == ~e.refused /\ e.error = ""
@@ -103,21 +116,26 @@ Cmd ==
                   THEN /\ pending' = pending + 1 /\ sroot' = root /\ root' = NoPos
                        /\ go' = [t |-> e.t, params |-> e.params, infotime |-> it, stopped |-> FALSE, fresh |-> waiting.fresh]
                        /\ waiting' = [waiting EXCEPT !.acc = NoAcc, !.fresh = FALSE]
-                  ELSE UNCHANGED <<pending, sroot, root, go, waiting>>
+                       /\ rootrec' = << >>
+                  ELSE UNCHANGED <<rootrec, pending, sroot, root, go, waiting>>
        [] e.kind = "stop" ->
-            /\ Report(common) /\ go' = [go EXCEPT !.stopped = TRUE] /\ UNCHANGED <<pending, root, sroot, waiting>>
+            /\ Report(common) /\ go' = [go EXCEPT !.stopped = TRUE] /\ UNCHANGED <<rootrec, pending, root, sroot, waiting>>
        [] e.kind = "ucinewgame" ->
-            /\ Report(common) /\ root' = NoPos /\ waiting' = [waiting EXCEPT !.fresh = TRUE] /\ UNCHANGED <<pending, sroot, go>>
+            /\ Report(common) /\ root' = NoPos /\ waiting' = [waiting EXCEPT !.fresh = TRUE] /\ UNCHANGED <<rootrec, pending, sroot, go>>
        [] e.kind \in {"show", "d"} ->
             /\ Report(common
                  \cup (IF Has(e, "show") /\ ~e.refused /\ root # NoPos /\ e.show.fl # << >>
                        THEN F(Len(e.show.fl) >= 4 /\ SubSeq(e.show.fl, 1, 4) = FenFields(root) /\ e.show.rows = DiagramRows(root.board),
                               "C20", "show does not depict the position that was set", [want |-> FenLine(root), got |-> e.show.fl])
+                            \cup F(e.show.hl = Hash(root), "C20", "the Hash line of show is not the hash of the position shown",
+                                   [fen |-> FenLine(root), got |-> e.show.hl, want |-> Hash(root)])
+                            \cup F(Len(e.show.rec) = Len(rootrec) /\ \A i \in 1..Len(rootrec) : e.show.rec[i] \in rootrec[i], "C20",
+                                   "the move record of show does not show what was played", [got |-> e.show.rec, want |-> rootrec])
                        ELSE {}))
-            /\ UNCHANGED <<pending, root, sroot, go, waiting>>
+            /\ UNCHANGED <<rootrec, pending, root, sroot, go, waiting>>
        [] e.kind = "quit" ->      \* the GUI gives up on whatever is still being searched
-            /\ Report(common) /\ pending' = 0 /\ UNCHANGED <<root, sroot, go, waiting>>
-       [] OTHER -> Report(common) /\ UNCHANGED <<pending, root, sroot, go, waiting>>
+            /\ Report(common) /\ pending' = 0 /\ UNCHANGED <<rootrec, root, sroot, go, waiting>>
+       [] OTHER -> Report(common) /\ UNCHANGED <<rootrec, pending, root, sroot, go, waiting>>
   /\ l' = l + 1
 
 Best ==
@@ -148,7 +166,7 @@ Best ==
                   ELSE {})
         /\ waiting' = [waiting EXCEPT !.acc = NoAcc,
                                       !.memo = IF repro /\ ~\E y \in waiting.memo : y.k = key THEN @ \cup { [k |-> key, r |-> result] } ELSE @]
-  /\ UNCHANGED <<root, sroot, go>> /\ l' = l + 1
+  /\ UNCHANGED <<rootrec, root, sroot, go>> /\ l' = l + 1
 
 Pv ==
   /\ IsEv("pv")
@@ -157,7 +175,7 @@ Pv ==
                    [fen |-> FenLine(sroot), pv |-> Rec[l].line])
             ELSE {})
   /\ waiting' = [waiting EXCEPT !.acc.pvs = Append(@, Rec[l].line)]
-  /\ UNCHANGED <<pending, root, sroot, go>> /\ l' = l + 1
+  /\ UNCHANGED <<rootrec, pending, root, sroot, go>> /\ l' = l + 1
 
 Depth ==
   /\ IsEv("depth")
@@ -165,10 +183,10 @@ Depth ==
             THEN F(Rec[l].d <= go.params.depth, "C08", "search went deeper than the depth limit", [limit |-> go.params.depth, depth |-> Rec[l].d])
             ELSE {})
   /\ waiting' = [waiting EXCEPT !.acc.depths = Append(@, Rec[l].d)]
-  /\ UNCHANGED <<pending, root, sroot, go>> /\ l' = l + 1
+  /\ UNCHANGED <<rootrec, pending, root, sroot, go>> /\ l' = l + 1
 
 Score == /\ IsEv("score") /\ waiting' = [waiting EXCEPT !.acc.scores = Append(@, Rec[l].cp)]
-         /\ UNCHANGED <<pending, root, sroot, go>> /\ l' = l + 1
+         /\ UNCHANGED <<rootrec, pending, root, sroot, go>> /\ l' = l + 1
 
 \* the driver waited (watchdog) for the bestmove of a go that is bounded by depth or time
 Waited ==
@@ -180,18 +198,18 @@ Waited ==
             THEN F(Rec[l].ok, "C14", "no bestmove arrived for a go bounded by a short time or depth (watchdog expired)",
                    [go |-> go.params, waited_ms |-> Rec[l].t - go.t])
             ELSE {})
-  /\ UNCHANGED <<pending, root, sroot, go, waiting>> /\ l' = l + 1
+  /\ UNCHANGED <<rootrec, pending, root, sroot, go, waiting>> /\ l' = l + 1
 
 Exit ==
   /\ IsEv("exit")
   /\ Report(F(Rec[l].clean, "C14", "the process did not exit cleanly on quit", [rc |-> Rec[l].rc, hung |-> Rec[l].hung]))
-  /\ UNCHANGED <<pending, root, sroot, go, waiting>> /\ l' = l + 1
+  /\ UNCHANGED <<rootrec, pending, root, sroot, go, waiting>> /\ l' = l + 1
 
 End ==
   /\ IsEv("end")
   /\ Report(F(~Rec[l].panic, "C14", "the engine panicked", [stderr |-> Rec[l].stderr])
             \cup F(pending = 0, "C14", "an accepted go was never answered with a bestmove", [pending |-> pending]))
-  /\ UNCHANGED <<pending, root, sroot, go, waiting>> /\ l' = l + 1
+  /\ UNCHANGED <<rootrec, pending, root, sroot, go, waiting>> /\ l' = l + 1
 
 Next == Session \/ Cmd \/ Best \/ Pv \/ Depth \/ Score \/ Waited \/ Exit \/ End
 Spec == Init /\ [][Next]_vars
